@@ -436,7 +436,7 @@ impl Check for C17 {
     fn run_shard(&self, ctx: &Ctx, rec: &mut Rec) {
         let total = match ctx.tier {
             Tier::Quick => 4000,
-            Tier::Thorough => 30000,
+            Tier::Thorough => 90000,
         };
         prop_loop(ctx, rec, "gen", strategy(), ctx.share(total), judge);
     }
